@@ -216,6 +216,26 @@ def trusted_scan(text):
     return tb
 
 
+def disable_clauses(text, labels):
+    """replace every single-line contract clause `<expr>,  // @label` (label in labels) by `true,`; returns (text, count)"""
+    out, n = [], 0
+    for line in text.split("\n"):
+        m = LABEL_RE.search(line)
+        if m and m.group(1) in labels and "//" in line:
+            code = line[:line.index("//")]
+            body = code.strip()
+            kw = ""
+            mk = re.match(r"(requires|ensures)\s+(.*)$", body, re.S)
+            if mk:
+                kw, body = mk.group(1) + " ", mk.group(2)
+            if body.endswith(",") and all(body.count(a) == body.count(b) for a, b in ("()", "[]", "{}")):
+                out.append("%s%strue,  // (clause switched off for rotation) @off.%s" % (code[:len(code) - len(code.lstrip())], kw, m.group(1)))
+                n += 1
+                continue
+        out.append(line)
+    return "\n".join(out), n
+
+
 def build_unit(name, twin=False, repo=None):
     mod = load_unit_module(name)
     u = Unit(name, repo=repo)
@@ -269,6 +289,39 @@ def run_verus_unit(name, tier, seed):
             fh.write("\n")
         fh.write(rest["stderr"])
     fails, und = classify(u, text, res)
+    # Verus reports ONE failing requires-clause per call. So that a failure is reported under every property whose clause
+    # fails (and not only under the first one), the labelled single-line precondition clauses that failed are switched
+    # off (`true`) in a copy of the unit and Verus is run again, until no new labelled precondition failure appears.
+    # Runs only when something failed; the copies never count towards obligations.
+    if fails and not und:
+        disabled = set()
+        seen = set(f["label"] for f in fails)
+        for rnd in range(6):
+            new_pre = [f["label"] for f in fails if f["msg"].startswith("precondition not satisfied") and LABEL_RE.search("// @" + f["label"]) and f["label"] not in disabled]
+            if not new_pre:
+                break
+            disabled |= set(new_pre)
+            text_r, n_off = disable_clauses(text, disabled)
+            if n_off == 0:
+                break
+            path_r = path[:-3] + "_rot%d.rs" % rnd
+            with open(path_r, "w") as fh:
+                fh.write(text_r)
+            res_r = run_verus(path_r, u, extra)
+            f_r, u_r = classify(u, text_r, res_r)
+            try:
+                os.remove(path_r)
+            except OSError:
+                pass
+            if u_r:
+                break
+            added = [f for f in f_r if f["label"] not in seen]
+            if not added:
+                break
+            for f in added:
+                seen.add(f["label"])
+                f["found_by"] = "clause rotation round %d (clauses switched off: %s)" % (rnd + 1, sorted(disabled))
+            fails = fails + added
     out["failures"] = fails
     out["undecided"] += und
     bd = function_breakdown(res["js"])
@@ -428,6 +481,14 @@ def main():
         except Exception as e:
             wit_runs = [dict(name="?", fails=[], cases=0, error="witness runner crashed: %s" % e, bound="", cmd=None)]
         for w in wit_runs:
+            for kn in w.get("known", []):
+                lab = "%s.witness.%s" % (pid, kn["id"])
+                k = [k for k in my_known if k["obligation"] == lab]
+                if k:
+                    if not any(kk[0] is k[0] for kk in known_hit):
+                        known_hit.append((k[0], dict(label=lab, fn=None, unit="witness", src=None, msg="witness %s" % w["name"])))
+                else:
+                    w["fails"].append(dict(unlisted_known=kn["id"], case=kn["case"]))
             if w["fails"]:
                 violations.append(dict(label="%s.witness.%s" % (pid, w["name"]), fn=None, unit="witness", src=None, clause="bounded witness: " + w.get("bound", ""),
                                        msg="the real code contradicts the property's oracle on a concrete input (proof machinery: %s)" % ("UNDECIDED on this tree" if undecided else "see other obligations"),
@@ -435,6 +496,11 @@ def main():
                                        witness=dict(failing_input=w["fails"][0], all_failing=w["fails"][:10], cases=w["cases"], how=w["cmd"], cmd="python3 tools/witness.py %s" % pid, witness=w["name"], bound=w.get("bound"))))
     for (k, f) in known_hit:
         lines.append("KNOWN-FINDING: property=%s %s [%s]" % (pid, k["what"], k["obligation"]))
+    if not wit_runs:
+        # findings that only a witness generator exhibits are listed on every run; the witness itself runs in the thorough tier
+        for k in my_known:
+            if ".witness." in k["obligation"] and not any(kk[0] is k for kk in known_hit):
+                lines.append("KNOWN-FINDING: property=%s %s [%s; exhibited by the bounded witness, which is not re-run in the quick tier]" % (pid, k["what"], k["obligation"]))
     seen = set()
     vio_out = []
     bounded_ok = False
